@@ -482,7 +482,7 @@ class Repo:
 class EnumMember:
     enum: str
     name: str
-    value: Any
+    value: Any = field(compare=False, default=None)
 
     def __repr__(self) -> str:
         return f"{self.enum.split(':')[-1]}.{self.name}"
